@@ -70,8 +70,10 @@ class StandardRequestHandler(ControlRequestHandler):
 
         # ...but the block handler does not. In this case, first we split the descriptors into two
         # collections: fixed descriptors (for the ROM) and runtime descriptors.
-        fixed_descriptors       = DeviceDescriptorCollection()
-        runtime_descriptors     = DeviceDescriptorCollection()
+        # (Neither gets an automatic language descriptor: `self.descriptors` already yields its own, and a
+        # second copy would make both handlers answer requests for string descriptor 0.)
+        fixed_descriptors       = DeviceDescriptorCollection(automatic_language_descriptor=False)
+        runtime_descriptors     = DeviceDescriptorCollection(automatic_language_descriptor=False)
         has_runtime_descriptors = False
         for type_number, index, descriptor in self.descriptors:
             if isinstance(descriptor, bytes):
